@@ -82,6 +82,7 @@ def run(ctx):
     check_on_copies(ctx)
     check_sweep_termination(ctx)
     check_region_partition(ctx)
+    check_fg_datavector(ctx)
     ctx.floor('returned-table constructions', n_ret, 2)
     check_gbp_sets(ctx)
     check_call_local_caches(ctx, [gbp, lbp, cm, repo.nfunc(RG, 'RegionGraph.hazan_peng_shashua')])
@@ -142,6 +143,45 @@ def check_sweep_termination(ctx):
                 else:
                     raise AnalysisError('%s: early exit `%s` of the sweep loop is neither an exact fixed-point test nor a tolerance test' % (q, U(guard.test)[:60]))
     ctx.floor('sweep loops examined', n, 2)
+
+
+def check_fg_datavector(ctx):
+    """FactorGraph.datavector(): exp(logp - logsumexp(logp)) sums to 1 over the domain it was normalised on.  Expanding it to the full domain
+    AFTERWARDS replicates every cell once per configuration of the attributes no clique covers, so the vector sums to total only if it is
+    re-weighted by |covered domain| / |full domain| - or if logp is expanded BEFORE it is normalised."""
+    from ..normalise import Defs, expand
+    fi = ctx.repo.nfunc(FG, 'FactorGraph.datavector')
+    ctx.analysed(fi)
+    rets = [r for r in ast.walk(fi.node) if isinstance(r, ast.Return)]
+    if len(rets) != 1:
+        raise AnalysisError('FactorGraph.datavector: expected one return')
+    defs = Defs(fi.body)
+    R = expand(rets[0].value, defs, depth=8, comps=True)
+    text = U(R).replace(' ', '')
+    lse = [c for c in ast.walk(R) if isinstance(c, ast.Call) and isinstance(c.func, ast.Attribute) and c.func.attr == 'logsumexp' and not c.args]
+    if len({U(c) for c in lse}) != 1:
+        raise AnalysisError('FactorGraph.datavector: normalisation by a full logsumexp not found')
+    normalised_on = U(lse[0].func.value).replace(' ', '')
+    full_before = normalised_on.endswith('.expand(self.domain)')
+    # is anything expanded to the full domain after the exponential?
+    exps = [c for c in ast.walk(R) if isinstance(c, ast.Call) and U(c.func).split('.')[-1] == 'exp']
+    if len({U(c) for c in exps}) != 1:
+        raise AnalysisError('FactorGraph.datavector: exponential not found')
+    after = any(isinstance(c, ast.Call) and isinstance(c.func, ast.Attribute) and c.func.attr == 'expand' and c.args and U(c.args[0]) == 'self.domain'
+                and any(x in exps for x in ast.walk(c.func.value)) for c in ast.walk(R))
+    if not full_before and not after:
+        raise AnalysisError('FactorGraph.datavector: the result is never expanded to the full domain')
+    part = 'np.exp(%s-%s.logsumexp())' % (normalised_on, normalised_on)
+    weight = any(x in text for x in ('*%s.domain.size()/self.domain.size()' % part, '*(%s.domain.size()/self.domain.size())' % part))
+    total_ok = 'self.total' in text
+    ok = total_ok and ((full_before and not weight) or (not full_before and after and weight))
+    ctx.ob('returned-normalised-to-total', fi, rets[0], ok,
+           'the full vector must sum to self.total: %s'
+           % ('normalised over the full domain' if full_before and not weight else
+              'normalised over the covered attributes, expanded, and re-weighted by |covered| / |full|' if (not full_before and after and weight) else
+              'normalised over `%s` and expanded to the full domain afterwards WITHOUT the weight |covered| / |full|: every attribute no clique '
+              'covers multiplies the mass by its size' % normalised_on[:50] if (not full_before and after) else 'weight and normalisation do not match'),
+           construct='mass of FactorGraph.datavector')
 
 
 def check_region_partition(ctx):
